@@ -166,6 +166,31 @@ def through_identity(src, names):
     return join(out)
 
 
+def abstract_primitive(src, names):
+    """`let a = ..int..;` -> `let zz_fK zz_p = ..zz_p..;` + `let a = zz_fK int;` : the body becomes a single-use function of
+    one of its primitives (the first one outside annotations and strings), applied to that primitive."""
+    out = []
+    k = 0
+    for s in statements(src):
+        m = re.match(r"^(\s*let\s+([A-Za-z_@][A-Za-z0-9_$-]*)\s*=\s*)(.*?)\s*;\s*$", s, re.S)
+        if m and m.group(2) in names:
+            parts = re.split(r"(`[^`]*`|\"[^\"]*\"|#[^\n]*\n)", m.group(3))
+            done = False
+            for i in range(0, len(parts), 2):
+                mm = re.search(r"(?<![A-Za-z0-9_@'$/.-])(int|num|str|bool)(?![A-Za-z0-9_$-])", parts[i])
+                if mm:
+                    prim = mm.group(1)
+                    parts[i] = parts[i][:mm.start()] + "zz_p" + parts[i][mm.end():]
+                    done = True
+                    break
+            if done:
+                out.append("let zz_f%d zz_p = %s;" % (k, "".join(parts)))
+                s = "%szz_f%d %s;" % (m.group(1), k, prim)
+                k += 1
+        out.append(s)
+    return join(out)
+
+
 def to_module(files, names, module="zzmod.oal", qualifier=None):
     """Move the declarations `names` (a dependency-closed group) of main.oal into a new module imported by main."""
     st = statements(files["main.oal"])
